@@ -5,10 +5,12 @@ pub mod common;
 pub mod qgen;
 pub mod c01;
 pub mod c04;
+pub mod c09;
 pub mod c12;
+pub mod c15;
 
 pub fn all() -> &'static [PropDef] {
-    static ALL: &[PropDef] = &[c01::DEF, c04::DEF, c12::DEF];
+    static ALL: &[PropDef] = &[c01::DEF, c04::DEF, c09::DEF, c12::DEF, c15::DEF];
     ALL
 }
 
